@@ -172,8 +172,8 @@ type repClass struct {
 	OK     bool
 	Min    int
 	Greedy bool
-	Any    bool      // any char (possibly except newline)
-	Ranges []rune    // pairs lo,hi when !Any
+	Any    bool   // any char (possibly except newline)
+	Ranges []rune // pairs lo,hi when !Any
 	Node   *syntax.Regexp
 	Max    int // -1 = unbounded
 }
